@@ -26,7 +26,7 @@ CLAIMED['C14'] = dict(
          'real loop) and the postconditions pin the whole resulting view to the remaining flat range, the return value to '
          'min(request,total), copied bytes to the matching flat positions (observing memcpy stub) and all accesses to the '
          'elements\' extents.  slice (both loops by the loop rule on cadical; at most 16 source elements and output slots - an input-size bound): the source is unchanged, the output starts at flat position offset inside the element containing it, holds min(count, total - offset) bytes unless the output array is full, middle elements are copied verbatim.  Bounded stand-ins (not proofs): slice for at most 2 (thorough: 3) source elements and output slots, '
-         'extract_back(buf) for at most 2 elements (thorough).  do_extract_back with the copy-out callback (extract_back(bytes, buf)) by the loop rule on cadical for at most 16 elements.  _copy_pipe_iov / memcpy_iov (both iterators, the real loop by the Hoare loop rule on cadical): returns min(size, destination total, source total), every destination flat byte below it is written exactly once from the source byte at the same flat position, all ranges inside the current elements, terminates - for vectors of at most 16 + 16 (thorough: 64 + 64) elements of any lengths incl. 0-element views (an input-size bound, not an unwinding bound; a bounded unwinding for 2 + 2 elements is in the thorough tier).  do_extract_back with the sub-vector callback (extract_back(bytes, iov): the output is the tail of the caller\'s array and denotes exactly the last ret flat bytes, first element = the tail of the boundary element; -1 only if the range does not fit) for at most 16 elements.  pipe_iov (the src_extractor instantiation of the same _copy_pipe_iov text, consuming the source view in place; ghost consumed-offset): same postconditions plus the source view denotes exactly the source bytes from flat position ret on, elements behind the boundary unchanged - for at most 16 + 16 elements.  The owning iovector\'s wrappers shrink_to / extract_front(bytes[, buf]) / extract_back(bytes[, buf]) (one generated loop-free proof each, the view operation replaced by the shape clause of its proved contract): exactly one view operation on the current window, its result returned, and afterwards [iov_begin, iov_end) is exactly the view the operation left.  extract_front_continuous / extract_back_continuous of the owning vector (generated loop-free proofs; view operation, sum, allocator and the nested wrapper as contract stubs): in place when possible, else by copying exactly the requested bytes into a fresh buffer; NULL exactly for a request larger than the content or without memory, and then nothing is allocated or consumed.  truncate(size) (loop-free, sum / shrink_to / push_back as stubs): a size within the content keeps exactly the first size bytes and appends nothing, a larger one asks for exactly the missing bytes.  The other owning wrappers (sub-vector outputs with allocation, push / pipe) are '
+         'extract_back(buf) for at most 2 elements (thorough).  do_extract_back with the copy-out callback (extract_back(bytes, buf)) by the loop rule on cadical for at most 16 elements.  _copy_pipe_iov / memcpy_iov (both iterators, the real loop by the Hoare loop rule on cadical): returns min(size, destination total, source total), every destination flat byte below it is written exactly once from the source byte at the same flat position, all ranges inside the current elements, terminates - for vectors of at most 16 + 16 (thorough: 64 + 64) elements of any lengths incl. 0-element views (an input-size bound, not an unwinding bound; a bounded unwinding for 2 + 2 elements is in the thorough tier).  do_extract_back with the sub-vector callback (extract_back(bytes, iov): the output is the tail of the caller\'s array and denotes exactly the last ret flat bytes, first element = the tail of the boundary element; -1 only if the range does not fit) for at most 16 elements.  pipe_iov (the src_extractor instantiation of the same _copy_pipe_iov text, consuming the source view in place; ghost consumed-offset): same postconditions plus the source view denotes exactly the source bytes from flat position ret on, elements behind the boundary unchanged - for at most 16 + 16 elements.  The owning iovector\'s wrappers shrink_to / extract_front(bytes[, buf]) / extract_back(bytes[, buf]) (one generated loop-free proof each, the view operation replaced by the shape clause of its proved contract): exactly one view operation on the current window, its result returned, and afterwards [iov_begin, iov_end) is exactly the view the operation left.  extract_front_continuous / extract_back_continuous of the owning vector (generated loop-free proofs; view operation, sum, allocator and the nested wrapper as contract stubs): in place when possible, else by copying exactly the requested bytes into a fresh buffer; NULL exactly for a request larger than the content or without memory, and then nothing is allocated or consumed.  truncate(size) (loop-free, sum / shrink_to / push_back as stubs): a size within the content keeps exactly the first size bytes and appends nothing, a larger one asks for exactly the missing bytes.  The element-level operations push_back(iovec), push_front(iovec), pop_front(), pop_back() and empty() (loop-free, every window inside every capacity up to 64, a ghost slot index for the frame): the window grows / shrinks by exactly that one element at that end, every other slot is unchanged, a full / empty vector refuses with 0 and changes nothing.  The other owning wrappers (sub-vector outputs with allocation, allocating push / pipe) are '
          'covered only by the native differential run of the real code against a flat-string oracle (17 operations), not proved.',
     note=TRUST + ' memcpy is a stub that checks ranges and tracks one solver-chosen byte; element buffers are abstract addresses '
          '(their memory is not modelled); prefix-sum monotonicity is a separately proved lemma; total length <= 2^62.',
